@@ -3,7 +3,7 @@
 
    `dreach c tr s` : s is reachable in the transition system of Model/Dialer.v (any number of concurrent Dial calls on one
    host entry with `nad c` resolved addresses, Concurrency `cap c`, outcome of every connect chosen freely = all fault
-   sequences, time advancing by arbitrary Ticks) by the trace tr.  Time is LOGICAL: the wall-clock part of the property
+   sequences, time advancing by arbitrary Ticks) by the trace tr.  Model of the code after the fixes 0bab23a and d625fef.  Time is LOGICAL: the wall-clock part of the property
    ("plus scheduling slack") and the behaviour of the kernel's connect are outside the model (props/C41.json). *)
 From FH Require Import Model.Base Gen.GenC41 Model.Dialer Proof.DialerProof.
 Open Scope N_scope.
@@ -33,28 +33,32 @@ Proof.
 Qed.
 Print Assumptions C41_rotation.
 
-(* unless the uint32 index wraps inside the dial, that rotation visits each of the n addresses exactly once *)
-Theorem C41_rotation_each_once : forall c i0, 0 < nad c -> i0 + nad c <= W32 ->
+(* that rotation visits each of the n addresses exactly once, starting at (index drawn) mod n, for EVERY value of the
+   uint32 counter (the code reduces the index modulo n before adding the loop offset).  The only side condition is that
+   the uint32 sum idx%n + i cannot overflow: fewer than 2^31 resolved addresses. *)
+Theorem C41_rotation_each_once : forall c i0, 0 < nad c -> 2 * nad c <= W32 ->
   NoDup (rot c i0 (nad c)) /\ length (rot c i0 (nad c)) = N.to_nat (nad c) /\
   (forall a, a < nad c -> In a (rot c i0 (nad c))) /\
   (forall j, j < nad c -> nth (N.to_nat j) (rot c i0 (nad c)) 0 = (i0 + j) mod nad c).
 Proof. exact rot_each_once. Qed.
 Print Assumptions C41_rotation_each_once.
 
-(* FINDING rotation-uint32-wrap: the guard is needed.  Every counter value is reachable; from a counter of 2^32-2 a dial over
-   three addresses [refuse, refuse, accept] tries 0, 0, 1 and fails although address 2 accepts. *)
-Theorem C41_rotation_refuted :
-  (forall c (v : nat), exists tr s, dreach c tr s /\ aidx s = N.of_nat v mod W32 /\ (forall t, N.of_nat v <= t -> tp s t = TNew))
-  /\ rot (mkCfg 0 3) 4294967295 3 = [0; 0; 1]
-  /\ (let c := mkCfg 0 3 in
-      let s0 := mkDS 0 4294967294 0 (fun _ => TNew) [] in
-      match drun c s0 [LStart 0 100; LDraw 0; LCheck 0; LAcqFast 0; LConnRefused 0; LCheck 0; LAcqFast 0; LConnRefused 0;
-                       LCheck 0; LAcqFast 0; LConnRefused 0] with
-      | Some s => tp s 0 = TDone (XErr 1) 100 4294967295 [0; 0; 1] 0
-      | None => False
-      end).
-Proof. split; [exact aidx_reachable|]. split; [exact rot_wrap_example|exact wrap_witness]. Qed.
-Print Assumptions C41_rotation_refuted.
+(* the counter values around the uint32 wrap (where the rotation broke before the fix d625fef) are ordinary:
+   every counter value is reachable, and at 2^32-1 three addresses are visited as 0, 1, 2 *)
+Theorem C41_counter_any_value : forall c (v : nat),
+  exists tr s, dreach c tr s /\ aidx s = N.of_nat v mod W32 /\ (forall t, N.of_nat v <= t -> tp s t = TNew).
+Proof. exact aidx_reachable. Qed.
+Print Assumptions C41_counter_any_value.
+Example C41_ex_rotation_at_wrap :
+  rot (mkCfg 0 3) 4294967295 3 = [0; 1; 2] /\
+  (let c := mkCfg 0 3 in
+   let s0 := mkDS 0 4294967294 0 (fun _ => TNew) [] in
+   match drun c s0 [LStart 0 100; LDraw 0; LCheck 0; LAcqFast 0; LConnRefused 0; LCheck 0; LAcqFast 0; LConnRefused 0;
+                    LCheck 0; LAcqFast 0; LConnOk 0] with
+   | Some s => tp s 0 = TDone (XOk 2) 100 4294967295 [0; 1; 2] 0
+   | None => False
+   end).
+Proof. split; [exact rot_at_wrap_example|exact wrap_witness_fixed]. Qed.
 
 (* ErrDialTimeout is never returned before the deadline and names an address of the rotation; once the deadline has
    passed, a dial that has not returned can return ErrDialTimeout(upstream) by at most two of its own steps, without
